@@ -13,7 +13,9 @@ EfiCase(p) ==
    calls |-> <<[op |-> "load"], [op |-> "efi_areas", it |-> 0], [op |-> "len", it |-> 0],
                [op |-> "size_hint", it |-> 0], [op |-> "next", it |-> 0], [op |-> "clone", it |-> 0, to |-> 1]>>
              \o Concat([i \in 1..(EfiNaive(p) + 1) |-> <<[op |-> "len", it |-> 0], [op |-> "next", it |-> 0]>>])
-             \o <<[op |-> "len", it |-> 1], [op |-> "next", it |-> 1], [op |-> "size_hint", it |-> 1],
+             \o <<[op |-> "len", it |-> 0], [op |-> "size_hint", it |-> 0], [op |-> "next", it |-> 0], [op |-> "len", it |-> 0],    \* after exhaustion
+                  [op |-> "count", it |-> 1], [op |-> "nth", it |-> 1, n |-> 1], [op |-> "len", it |-> 1],
+                  [op |-> "len", it |-> 1], [op |-> "next", it |-> 1], [op |-> "size_hint", it |-> 1],
                   [op |-> "dbg", what |-> "efi_mmap"]>>,
    desc |-> [area |-> "efi"] @@ p]
 =============================================================================
